@@ -64,6 +64,7 @@ func tagID(tags []string, dropLe bool) string {
 type expectation struct {
 	values map[ident][]float64 // every enabled sub-metric of every series
 	otlpH  map[ident][]float64 // the same for otlp AsHistogram (timers as histogram datapoints)
+	le     map[ident][]float64 // histogram buckets only, identified by the series' tags plus le:<bound>
 }
 
 func baseSubs(tm gostatsd.Timer, d gostatsd.TimerSubtypes) []float64 {
@@ -111,7 +112,7 @@ func numericNorm(tags []string) []string {
 
 func expect(mm *gostatsd.MetricMap, d gostatsd.TimerSubtypes, o expectOpts) expectation {
 	withTags, withHost := o.withTags, o.withHost
-	e := expectation{values: map[ident][]float64{}, otlpH: map[ident][]float64{}}
+	e := expectation{values: map[ident][]float64{}, otlpH: map[ident][]float64{}, le: map[ident][]float64{}}
 	id := func(name string, tags gostatsd.Tags, src gostatsd.Source) ident {
 		i := ident{token: tokenOf(name)}
 		if withTags {
@@ -157,10 +158,17 @@ func expect(mm *gostatsd.MetricMap, d gostatsd.TimerSubtypes, o expectOpts) expe
 			h = append(h, lo, hi)
 		}
 		if tm.Histogram != nil {
-			for _, c := range tm.Histogram {
+			for th, c := range tm.Histogram {
 				e.values[i] = append(e.values[i], float64(c))
+				bound := strconv.FormatFloat(float64(th), 'f', -1, 64)
+				if o.numericTagValues && math.IsInf(float64(th), 1) {
+					bound = "infinity" // New Relic's spelling of the last bucket
+				}
+				li := id(n, append(tm.Tags.Copy(), "le:"+bound), tm.Source)
+				e.le[li] = append(e.le[li], float64(c))
 				if o.bucketRateZero {
 					e.values[i] = append(e.values[i], 0)
+					e.le[li] = append(e.le[li], 0)
 				}
 				h = append(h, float64(c))
 			}
@@ -172,7 +180,25 @@ func expect(mm *gostatsd.MetricMap, d gostatsd.TimerSubtypes, o expectOpts) expe
 	return e
 }
 
+// observedBuckets is observed restricted to points that carry an le: tag, which stays part of the identity.
+func observedBuckets(pts []point, withHost bool, hostFromTag bool) map[ident][]float64 {
+	var b []point
+	for _, p := range pts {
+		for _, t := range p.tags {
+			if strings.HasPrefix(t, "le:") {
+				b = append(b, p)
+				break
+			}
+		}
+	}
+	return observedLe(b, true, withHost, hostFromTag, false)
+}
+
 func observed(pts []point, withTags, withHost bool, hostFromTag bool) map[ident][]float64 {
+	return observedLe(pts, withTags, withHost, hostFromTag, true)
+}
+
+func observedLe(pts []point, withTags, withHost bool, hostFromTag bool, dropLe bool) map[ident][]float64 {
 	out := map[ident][]float64{}
 	for _, p := range pts {
 		i := ident{token: tokenOf(p.name)}
@@ -190,7 +216,7 @@ func observed(pts []point, withTags, withHost bool, hostFromTag bool) map[ident]
 			tags = rest
 		}
 		if withTags {
-			i.tags = tagID(tags, true)
+			i.tags = tagID(tags, dropLe)
 		}
 		if withHost {
 			i.host = host
@@ -213,6 +239,16 @@ func compare(t vt.TB, variant string, got, want map[ident][]float64, ctxDesc str
 			} else {
 				okc = sameFloat(g[k], w[k]) // JSON / protobuf / line-protocol numbers round-trip a float64
 			}
+		}
+		if !okc && len(g) == 0 {
+			var near []string
+			for k := range got {
+				if k.token == i.token {
+					near = append(near, fmt.Sprintf("%+v", k))
+				}
+			}
+			sort.Strings(near)
+			ctxDesc += fmt.Sprintf(" [payload series of that name: %v]", near)
 		}
 		if !okc {
 			vt.Fail(t, "C17:series-values:"+variant, "%s: series %+v: payloads carry values %v, the aggregate has %v (%s)", variant, i, g, w, ctxDesc)
@@ -385,7 +421,7 @@ func TestPayloadsCarryEverySeriesOnce(t *testing.T) {
 			if err != nil {
 				t.Fatalf("%v", err)
 			}
-			send(t, kit, gen.CopyMap(mm))
+			send(t, kit, gen.CopyMapSpare(mm))
 			attempts := kit.RT.Attempts()
 			kit.Close()
 			if len(attempts) >= 2 {
@@ -437,6 +473,10 @@ func TestPayloadsCarryEverySeriesOnce(t *testing.T) {
 				continue
 			}
 			compare(t, name, observed(pts, true, withHost, kit.Variant.Backend == "otlp"), want, desc)
+			// histogram buckets are separate series distinguished by an le:<bound> tag: each bound exactly once with its count
+			if name != "otlp/AsHistogram" && kit.Variant.Backend != "influxdb" {
+				compare(t, name, observedBuckets(pts, withHost, kit.Variant.Backend == "otlp"), ex.le, desc+" [buckets by le]")
+			}
 		}
 		// graphite: tags mode carries tags and host, legacy/basic drop them
 		for _, name := range []string{"graphite/tags", "graphite/basic", "graphite/legacy"} {
@@ -444,7 +484,7 @@ func TestPayloadsCarryEverySeriesOnce(t *testing.T) {
 			if err != nil {
 				t.Fatalf("%v", err)
 			}
-			send(t, kit, gen.CopyMap(mm))
+			send(t, kit, gen.CopyMapSpare(mm))
 			tagsMode := name == "graphite/tags"
 			var stream []byte
 			// the sender closes its connection when stopped; the listener has the whole stream once it has read to EOF
@@ -540,7 +580,7 @@ func TestRelayRoundTrip(t *testing.T) {
 		}
 		defer kit.Close()
 		desc := fmt.Sprintf("%s map=%v", name, gen.DescribeMap(mm))
-		send(t, kit, gen.CopyMap(mm))
+		send(t, kit, gen.CopyMapSpare(mm))
 		want := model.Agg{}
 		lines := 0
 		mm.Counters.Each(func(n, _ string, c gostatsd.Counter) {
